@@ -301,8 +301,9 @@ def getU (be : Bool) (b : Bytes) : Nat := if be then beNat b else leNat b
 def two32 : Nat := 4294967296
 def two64 : Nat := 18446744073709551616
 
-/-- uint32 subtraction `a -= uint32(b)` -/
-def sub32 (a b : Nat) : Nat := (a + two32 - b % two32) % two32
+/-- uint32 subtraction `a -= uint32(b)`.  (Literal first: `Nat.add` recurses on its second argument, so with
+    the literal second a definitional-equality check on an open term would peel 2^32 successors.) -/
+def sub32 (a b : Nat) : Nat := (two32 + a - b % two32) % two32
 
 def toI64 (n : Nat) : Int := wrapI64 (Int.ofNat n)
 
